@@ -23,4 +23,10 @@ Case == [out |-> [i \in DOMAIN out |-> Compact(out[i])], ntok |-> ntok, fault |-
          decls |-> GlobalSigs \o ParamSigs \o lsigs \o BuiltinSigs]
 EmitInv == Wanted => PrintT(<<"PROG", ToJson(Case)>>)
 DbgInv == Done => PrintT(<<"DONE", ntok, fault>>)
+\* the generator (rules as guards) and the checker (rules as judgements) agree on every finished program
+SC == INSTANCE SplCheck
+CheckAgrees == Done => LET v == SC!Violations(out)
+                           want == IF fault = NoFault THEN {} ELSE {fault} IN
+                       \/ v = want
+                       \/ PrintT(<<"SPLCHECK-DISAGREES", want, v, ToJson(Case)>>) /\ FALSE
 =============================================================================
